@@ -91,6 +91,26 @@ var programs = []string{
 	/* 13 */ "try { v28a ; try { v28b ; v28c } ; v28a }",
 	/* 14 */ "!if { v28a } then { v28b ; v28c }",
 	/* 15 */ "function v28r { try { v28a ; v28b } ; v28c }\nv28r",
+	/* 16 */ "function v28f { v28a }\nfexec function v28f",
+	/* 17 */ "$i=0; while { $i<2 } { $i=$i+1; v28a }",
+	/* 18 */ "for { $i=0; $i<2; $i++ } { v28a }",
+	/* 19 */ "switch { case { v28a } then { v28b }; default { v28c } }",
+	/* 20 */ "%{a: 1, b: 2} -> formap k v { v28a }",
+	/* 21 */ "a [1..3] -> foreach --step 2 i { v28a }",
+	/* 22 */ "out ${ v28a } @{ v28b }",
+	/* 23 */ "v28a -> if { v28b }",
+	/* 24 */ "v28a ? v28b",
+	/* 25 */ "unsafe { v28a ; v28b }",
+	/* 26 */ "tryerr { v28a ; v28b }",
+	/* 27 */ "v28a -> catch { v28b }",
+	/* 28 */ "try { v28a || v28b | v28c }",
+	/* 29 */ "v28a && v28b | v28c",
+	/* 30 */ "return 3 ; v28a",
+	/* 31 */ "function v28k { break nosuchblock ; v28a }\nv28k ; v28b",
+	/* 32 */ "trypipe { v28b -> foreach i { break v28zz } }",
+	/* 33 */ "function v28s { v28a -> v28b }\nv28s | v28c",
+	/* 34 */ "%[1 2] -> foreach i { %[1 2] -> foreach j { v28a ; break foreach } }",
+	/* 35 */ "a [1..3] -> foreach --parallel 2 i { v28a }",
 }
 
 func check(block string, runs int) {
@@ -134,18 +154,69 @@ func VerifC28Programs() {
 	rt.Reach(fmt.Sprintf("prog-%d-done", prog))
 }
 
-// VerifC28CastFailure: a function with a typed parameter called with a good or a bad argument.
-func VerifC28CastFailure() {
+// VerifC28Concurrent: two programs of the pool started from two goroutines in the same session
+// (the engine interleaves them at blocking points, deterministically: one schedule per pair).
+var concurrentPool = []int{0, 2, 3, 6, 7, 8, 11, 13}
+
+func VerifC28Concurrent() {
 	for i := range exitNum {
 		exitNum[i] = rt.IntRange("exit", 0, 255)
 	}
-	bad := rt.Bool("bad-argument")
-	rt.KnownFinding("C28-cast-failure-leaks-fid", bad)
-	arg := "7"
-	if bad {
-		arg = "notanumber"
+	a := programs[concurrentPool[rt.Choice("prog-a", len(concurrentPool))]]
+	b := programs[concurrentPool[rt.Choice("prog-b", len(concurrentPool))]]
+	define()
+	mx.Init()
+	quiet(nil)
+	baseline := table()
+	mu.Lock()
+	seen = nil
+	mu.Unlock()
+	done := make(chan error, 2)
+	for _, prog := range []string{a, b} {
+		prog := prog
+		go func() {
+			_, _, _, err := mx.Run(prog)
+			done <- err
+		}()
 	}
-	check("function v28h (n: int) { v28a }\nv28h "+arg+" ; v28b", rt.Param("runs"))
+	for i := 0; i < 2; i++ {
+		rt.Assert(<-done == nil, "program does not compile")
+	}
+	quiet(baseline)
+	rt.Reach("both-finished")
+	for id := range table() {
+		rt.Assert(baseline[id], "`"+a+"` || `"+b+"`: a process of the finished programs is still in the FID table")
+	}
+	mu.Lock()
+	defer mu.Unlock()
+	for i := range seen {
+		rt.Assert(!baseline[seen[i]], "a command got the FID of a process that was already in the table")
+		for j := 0; j < i; j++ {
+			rt.Assert(seen[i] != seen[j], "`"+a+"` || `"+b+"`: two processes of the session got the same FID")
+		}
+	}
+}
+
+// VerifC28Findings: the programs that leave a process behind (kept apart from the pool so that the pool runs clean).
+var findings = []struct{ id, good, bad string }{
+	{"C28-cast-failure-leaks-fid", "function v28h (n: int) { v28a }\nv28h 7 ; v28b", "function v28h (n: int) { v28a }\nv28h notanumber ; v28b"},
+	{"C28-fexec-builtin-leaks-fid", "function v28f { v28a }\nfexec function v28f ; v28b", "fexec builtin v28a ; v28b"},
+}
+
+func VerifC28Findings() {
+	for i := range exitNum {
+		exitNum[i] = rt.IntRange("exit", 0, 255)
+	}
+	which := rt.Choice("program", len(findings))
+	bad := rt.Bool("bad-variant")
+	for i := range findings {
+		rt.KnownFinding(findings[i].id, rt.And(bad, which == i))
+	}
+	prog := findings[which].good
+	if bad {
+		prog = findings[which].bad
+	}
+	check(prog, rt.Param("runs"))
 }
 
 // Replay drivers of the kernel scheduler harnesses (VerifC28SchedNormal/Try/TryPipe): the same
